@@ -21,6 +21,10 @@ def rows_for_pair(case):
             rows.append(common.call_rule("ruleTODTOD", ts, [t1, j, t2]))
             iv = qa.RULES["ruleTODTOD"][0](ts, T.Time(hour=a, minute=ma), j, T.Time(hour=b, minute=mb))
             rows.append(common.call_post(ts, iv))
+            # reference times before, at, inside, at the end of and after the written range
+            am, bm = a * 60 + ma, b * 60 + mb
+            for rmin in sorted({(am - 1) % 1440, am, (am + 1) % 1440, ((am + bm) // 2) % 1440, (bm - 1) % 1440, bm, (bm + 1) % 1440}):
+                rows.append(common.call_post(ts.replace(hour=rmin // 60, minute=rmin % 60, second=17), iv))
             for d in case["dates"]:
                 date = T.Time(year=d[0], month=d[1], day=d[2])
                 iv2 = qa.RULES["ruleTODTOD"][0](ts, T.Time(hour=a, minute=ma), j, T.Time(hour=b, minute=mb))
@@ -100,6 +104,11 @@ def run(ctx):
             cases.append({"text": at + "-" + bt, "ctx": "latent", "A": A, "B": B, "ts": ts0, "label": "latent", "form": "join:-"})
             cases.append({"text": at + " - " + bt, "ctx": "latent", "A": A, "B": B, "ts": (2019, 12, 31, 23, 59), "label": "latent", "form": "join: - "})
             cases.append({"text": at + "-" + bt, "ctx": "bare", "A": A, "B": B, "ts": ts0, "label": "bare", "form": "join:-"})
+            if (a * 7 + b) % 5 == ctx.seed % 5 or not ctx.quick:
+                am, bm = a * 60 + ma, b * 60 + mb
+                for rmin in sorted({am, ((am + bm) // 2) % 1440, bm, (am + 1) % 1440}):
+                    cases.append({"text": at + " - " + bt, "ctx": "latent", "A": A, "B": B, "ts": (2020, 2, 29, rmin // 60, rmin % 60, 33),
+                                  "label": "latent", "form": "reference inside/at the range"})
     # every joiner on a subset of pairs, every context
     jp = [(9, 17), (9, 5), (23, 3), (0, 0), (12, 0), (8, 8), (13, 14), (11, 12), (7, 19), (20, 6), (5, 9), (22, 23)]
     for (a, b) in jp:
